@@ -318,6 +318,112 @@ def fresh_symbols(run):
                           {"case": name, "targets": [hex(bad[0]), hex(bad[1])], "code": p.contracts[progs.THIS].hex()})
 
 
+def key_cheatcodes(run):
+    """vm.addr / vm.sign with symbolic keys: the modelling axioms must not exclude inputs.  Decided on the path conditions
+    and returned words of the real handlers:
+      * two vm.addr calls on different key terms: inputs with k1 == k2 are admitted, and then the addresses are equal;
+        the address is a 160-bit value; vm.addr is a function of the key (same key term -> same word);
+      * vm.sign(k, d): v in {27,28}, 0 < r,s < n entailed; ecrecover(d, v, r, s) through the precompile equals vm.addr(k);
+        two signatures with k1 == k2 and d1 == d2 are admitted and then coincide."""
+    cls = "key-cheatcodes"
+    cap = run.bounds["solver_cap_s"]
+
+    def out(k):
+        return [("PUSH", 0x400 + 32 * k), "MSTORE"]
+
+    def addr_of(key_items, k):
+        return e2e.call_cheat("addr(uint256)", [key_items], ret_words=1) + ["POP", ("PUSH", 0x80), "MLOAD"] + out(k)
+
+    def sign(key_items, dig_items, k):
+        return e2e.call_cheat("sign(uint256,bytes32)", [key_items, dig_items], ret_words=3) + ["POP"] + [
+            ("PUSH", 0x80), "MLOAD"] + out(k) + [("PUSH", 0xA0), "MLOAD"] + out(k + 1) + [("PUSH", 0xC0), "MLOAD"] + out(k + 2)
+
+    def run_prog(name, items, nwords, ncd):
+        p = families._mk_multi(f"keys#{name}", items + [("PUSH", 32 * nwords), ("PUSH", 0x400), "RETURN"], {}, features=(name,), ncd=ncd, balances=())
+        p.callvalue_zero = True
+        sevm, recs, hdata = progs.run_halmos(p, progs.Inputs(p))
+        good = [(r, d) for r, d in zip(recs, hdata) if r.error is None and d is not None and len(d) == 32 * nwords]
+        return p, recs, good
+
+    def words(d, n):
+        return [z3.Concat(*d[32 * i:32 * i + 32]) for i in range(n)]
+
+    k1, k2, d1, d2 = (z3.BitVec(f"cd{i}", 256) for i in range(4))
+    # ---- vm.addr twice -------------------------------------------------------------------------------------------------
+    try:
+        p, recs, good = run_prog("addr-twice", addr_of(cd0, 0) + addr_of(cd1, 1) + addr_of(cd0, 2), 3, 2)
+        if not good:
+            run.inconc(cls, "addr-twice", f"no successful path ({[type(r.error).__name__ for r in recs]})")
+        else:
+            pcs = [z3.And(*[exact.inline(c) for c in r.conds]) if r.conds else z3.BoolVal(True) for r, _ in good]
+            # coverage of k1 == k2
+            res = portfolio.solve([z3.Or(*pcs), k1 == k2], timeout=cap)
+            run.note_solver(res)
+            if res.status == "sat":
+                run.ok(cls, "addr/equal-keys-admitted")
+            elif res.status == "unsat" and portfolio.solve([z3.Or(*pcs), k1 == k2], timeout=60, want_all=True).status == "unsat":
+                run.violation(cls, "keys/addr/equal-keys-excluded", "two vm.addr calls on different key terms: no reported path admits inputs "
+                              "with k1 == k2", {"code": p.contracts[progs.THIS].hex()})
+            else:
+                run.inconc(cls, "addr/equal-keys-admitted", res.status)
+            for (r, d), pc in zip(good, pcs):
+                a1, a2, a3 = words(d, 3)
+                for nm, claim in (("function-of-key", z3.Implies(k1 == k2, a1 == a2)), ("same-term-same-address", a1 == a3),
+                                  ("160-bit", z3.And(z3.Extract(255, 160, a1) == 0, z3.Extract(255, 160, a2) == 0))):
+                    res = portfolio.solve([pc, z3.Not(claim)], timeout=cap)
+                    run.note_solver(res)
+                    if res.status == "unsat":
+                        run.ok(cls, f"addr/{nm}")
+                    elif res.status == "sat" and portfolio.solve([pc, z3.Not(claim)], timeout=60, want_all=True).status == "sat":
+                        run.violation(cls, f"keys/addr/{nm}", f"vm.addr: {nm} does not hold on a reported path (model {dict(list(res.model.items())[:3])})",
+                                      {"code": p.contracts[progs.THIS].hex()})
+                    else:
+                        run.inconc(cls, f"addr/{nm}", res.status)
+    except Exception as e:
+        run.inconc(cls, "addr-twice", f"{type(e).__name__}: {e}")
+    # ---- vm.sign + ecrecover ---------------------------------------------------------------------------------------------
+    try:
+        ecr = [("PUSH", 36), "CALLDATALOAD", ("PUSH", 0x200), "MSTORE", ("PUSH", 0x400), "MLOAD", ("PUSH", 0x220), "MSTORE", ("PUSH", 0x420), "MLOAD",
+               ("PUSH", 0x240), "MSTORE", ("PUSH", 0x440), "MLOAD", ("PUSH", 0x260), "MSTORE",
+               ("PUSH", 32), ("PUSH", 0x300), ("PUSH", 128), ("PUSH", 0x200), ("PUSH", 1), "GAS", "STATICCALL", "POP", ("PUSH", 0x300), "MLOAD"] + out(3)
+        items = sign(cd0, cd1, 0) + ecr + addr_of(cd0, 4) + sign(cd2, [("PUSH", 100), "CALLDATALOAD"], 5)
+        p, recs, good = run_prog("sign-recover", items, 8, 4)
+        if not good:
+            run.inconc(cls, "sign-recover", f"no successful path ({[type(r.error).__name__ for r in recs]})")
+        else:
+            N = 0xFFFFFFFFFFFFFFFFFFFFFFFFFFFFFFFEBAAEDCE6AF48A03BBFD25E8CD0364141
+            pcs = [z3.And(*[exact.inline(c) for c in r.conds]) if r.conds else z3.BoolVal(True) for r, _ in good]
+            K1, D1, K2, D2 = (z3.BitVec(f"cd{i}", 256) for i in range(4))  # sign(K1, D1) ... sign(K2, D2)
+            res = portfolio.solve([z3.Or(*pcs), K1 == K2, D1 == D2], timeout=cap)
+            run.note_solver(res)
+            if res.status == "sat":
+                run.ok(cls, "sign/equal-key-and-digest-admitted")
+            elif res.status == "unsat" and portfolio.solve([z3.Or(*pcs), K1 == K2, D1 == D2], timeout=60, want_all=True).status == "unsat":
+                run.violation(cls, "keys/sign/equal-inputs-excluded", "two vm.sign calls: no reported path admits k1 == k2 and d1 == d2",
+                              {"code": p.contracts[progs.THIS].hex()})
+            else:
+                run.inconc(cls, "sign/equal-key-and-digest-admitted", res.status)
+            for (r, d), pc in zip(good, pcs):
+                v, rr, ss, rec_, a, v2, r2, s2 = words(d, 8)
+                claims = {
+                    "range": z3.And(z3.Or(v == 27, v == 28), z3.UGT(rr, 0), z3.ULT(rr, z3.BitVecVal(N, 256)), z3.UGT(ss, 0), z3.ULT(ss, z3.BitVecVal(N, 256))),
+                    "ecrecover-gives-addr": rec_ == a,
+                    "same-inputs-same-signature": z3.Implies(z3.And(K1 == K2, D1 == D2), z3.And(v == v2, rr == r2, ss == s2)),
+                }
+                for nm, claim in claims.items():
+                    res = portfolio.solve([pc, z3.Not(claim)], timeout=cap)
+                    run.note_solver(res)
+                    if res.status == "unsat":
+                        run.ok(cls, f"sign/{nm}")
+                    elif res.status == "sat" and portfolio.solve([pc, z3.Not(claim)], timeout=60, want_all=True).status == "sat":
+                        run.violation(cls, f"keys/sign/{nm}", f"vm.sign: {nm} does not hold on a reported path (model {dict(list(res.model.items())[:3])})",
+                                      {"code": p.contracts[progs.THIS].hex()})
+                    else:
+                        run.inconc(cls, f"sign/{nm}", res.status)
+    except Exception as e:
+        run.inconc(cls, "sign-recover", f"{type(e).__name__}: {e}")
+
+
 def main(run: common.Run):
     tier = run.tier
     maxlen = 2 if tier == "quick" else 3
@@ -338,6 +444,8 @@ def main(run: common.Run):
         run.extra.update(stats)
     if not only or "fresh" in only:
         fresh_symbols(run)
+    if not only or "keys" in only:
+        key_cheatcodes(run)
     run.extra["rule"] = "one solver query per obligation over all address / value arguments"
 
 
